@@ -224,6 +224,9 @@ func PanicSig(r interface{}, stack []byte) (string, string) {
 	return "panic:" + class + "@" + site, msg
 }
 
+// Shard / NShards identify this worker (set by Main before any case runs).
+var Shard, NShards uint64 = 0, 1
+
 // Main parses flags and runs the requested space shard.
 func Main(spaces map[string]func(tier string) Space) {
 	var (
@@ -270,6 +273,7 @@ func Main(spaces map[string]func(tier string) Space) {
 	if *memlimit > 0 {
 		debug.SetMemoryLimit(*memlimit)
 	}
+	Shard, NShards = *shard, *nshards
 	mk, ok := spaces[*space]
 	if !ok {
 		fmt.Fprintf(os.Stderr, "unknown space %q\n", *space)
